@@ -1,28 +1,65 @@
 package engine_test
 
 import (
+	"bytes"
+	"fmt"
+	"math"
+	"reflect"
+	"runtime"
+	"sort"
 	"strings"
 	"testing"
+	"time"
 
 	"github.com/sanonone/kektordb/internal/zzverif/vexec"
 	"github.com/sanonone/kektordb/internal/zzverif/vkit"
+	"github.com/sanonone/kektordb/pkg/core"
+	"github.com/sanonone/kektordb/pkg/core/distance"
+	"github.com/sanonone/kektordb/pkg/core/hnsw"
+	"github.com/sanonone/kektordb/pkg/core/types"
 )
 
 // C04 — the live engine behaves like a simple map-of-records state machine.
+//
+// Three groups:
+//   - directed: fixed templates for the orderings / inputs the property singles out and random
+//     episodes reach rarely (vector-less adds, reserved memory keys, the parallel batch path,
+//     the fast import path, the int8 range, caller-owned buffers, large dimensions);
+//   - random:   random histories over the small universe of vexec.Gen;
+//   - bulk:     histories on an index of 40-100 records, with batches / imports large enough
+//     for the parallel insert paths (several items per worker).
+//
+// Oracle = vexec.CheckFull (every read of the property against the reference model) plus the
+// C04-only reads and rules of c04Mon below.
 func TestVerifC04(t *testing.T) {
 	vkit.Run(t, "C04", func(ctx *vkit.Ctx) {
 		c04Probes(ctx)
-		ctx.Group("random", ctx.N(4000, 60000), func(cs *vkit.Case) {
+		ctx.Assume("which insert path a batch / import takes (evidence counters batch_parallel, import_parallel, ...) is derived from the model with the thresholds read in hnsw_index.go: AddBatch is parallel when live ids >= efConstruction, AddBatchFast when live ids >= max(2*M, 40); the engine offers no hook to observe the path itself")
+		ctx.Assume("metadata maps returned by reads are mutated at their top level only: nested values are documented as shared and read-only (core.go, getMetadataForNode CONTRACT)")
+
+		ctx.Group("directed", len(c04Templates)*ctx.N(3, 24), func(cs *vkit.Case) {
+			tpl := c04Templates[cs.Idx%len(c04Templates)]
 			x := vexec.NewExec(cs, cs.SubDir("data"))
-			defer func() {
-				if x.E != nil {
-					x.E.Close()
-				}
-			}()
+			defer c04Close(x)
 			g := vexec.NewGen(cs.R)
 			c04Guards(ctx, g)
+			g.ReservedMeta = true
+			t := &c04Run{ctx: ctx, cs: cs, x: x, g: g, mon: newC04Mon(ctx, cs, x)}
+			tpl.run(t)
+			ctx.Count("directed."+tpl.name, 1)
+			c04Finish(ctx, cs, x)
+		})
+
+		ctx.Group("random", ctx.N(4000, 60000), func(cs *vkit.Case) {
+			x := vexec.NewExec(cs, cs.SubDir("data"))
+			defer c04Close(x)
+			g := vexec.NewGen(cs.R)
+			c04Guards(ctx, g)
+			c04Widen(cs, g)
+			c04Scribble(ctx, x, cs.R.Chance(0.5))
+			mon := newC04Mon(ctx, cs, x)
 			nops := cs.R.Range(25, ctx.N(45, 70))
-			if cs.R.Chance(0.15) { // episodes large enough for the batch / fast-import paths
+			if cs.R.Chance(0.15) { // episodes with a larger universe
 				g.IDs = append(g.IDs, "m0", "m1", "m2", "m3", "m4", "m5", "m6", "m7", "m8", "m9")
 				nops *= 2
 			}
@@ -33,33 +70,1192 @@ func TestVerifC04(t *testing.T) {
 					g.Step(x)
 				}
 				ctx.Count("ops", 1)
+				mon.afterOp(fmt.Sprintf("after op %d", i))
 				if i%5 == 4 || i == nops-1 {
-					if msg := x.CheckFull(); msg != "" {
-						cs.Fail("after op %d: %s", i, msg)
-					}
-					ctx.Count("full_checks", 1)
+					mon.full(fmt.Sprintf("after op %d", i))
 				}
 				if cs.R.Chance(0.03) {
 					x.Restart()
-					if msg := x.CheckFull(); msg != "" {
-						cs.Fail("after restart (op %d): %s", i, msg)
-					}
+					mon.full(fmt.Sprintf("after restart (op %d)", i))
 				}
 			}
-			ctx.Eval(1)
-			key := x.KindKey()
-			for _, k := range x.Kinds {
-				ctx.Count("kind."+k, 1)
-			}
-			if (strings.Contains(key, "vdelete") || strings.Contains(key, "vdrop")) &&
-				(strings.Contains(key, "vacuum") || strings.Contains(key, "refine") || strings.Contains(key, "snapshot") || strings.Contains(key, "rewrite") || strings.Contains(key, "vcompress")) {
-				ctx.Distinct(key)
-			}
-			ctx.Sample("episode", 2, map[string]any{"ops": cs.Ops()[:min(len(cs.Ops()), 25)]})
+			c04Finish(ctx, cs, x)
+		})
+
+		ctx.Group("bulk", ctx.N(120, 2000), func(cs *vkit.Case) {
+			x := vexec.NewExec(cs, cs.SubDir("data"))
+			defer c04Close(x)
+			c04Bulk(ctx, cs, x)
+			c04Finish(ctx, cs, x)
 		})
 	})
 }
 
+func c04Close(x *vexec.Exec) {
+	if x.E != nil {
+		x.E.Close()
+	}
+}
+
+// c04Finish registers the episode in the evidence.
+func c04Finish(ctx *vkit.Ctx, cs *vkit.Case, x *vexec.Exec) {
+	ctx.Eval(1)
+	key := x.KindKey()
+	for _, k := range x.Kinds {
+		ctx.Count("kind."+k, 1)
+	}
+	if (strings.Contains(key, "vdelete") || strings.Contains(key, "vdrop")) &&
+		(strings.Contains(key, "vacuum") || strings.Contains(key, "refine") || strings.Contains(key, "snapshot") || strings.Contains(key, "rewrite") || strings.Contains(key, "vcompress")) {
+		ctx.Distinct(cs.Group + ":" + key)
+	}
+	ctx.Sample("episode."+cs.Group, 1, map[string]any{"ops": cs.Ops()[:min(len(cs.Ops()), 25)]})
+}
+
 func c04Guards(ctx *vkit.Ctx, g *vexec.Gen) {}
 
-func c04Probes(ctx *vkit.Ctx) {}
+// c04Scribble switches the overwriting of caller-owned buffers on. Guard of D-C04-1: while
+// that finding is open, the values nested inside the metadata handed over are left alone
+// (everything else - vectors, KV values, the top level of the maps, batch items - is still
+// overwritten).
+func c04Scribble(ctx *vkit.Ctx, x *vexec.Exec, on bool) {
+	x.Scribble = on
+	x.ScribbleNested = on && !ctx.IsKnown("D-C04-1")
+}
+
+func c04Probes(ctx *vkit.Ctx) {
+	// D-C04-1: a list / object / typed slice given as a metadata VALUE is stored by reference.
+	// The caller changing its own slice after the call changes what reads return (and a restart
+	// changes it back: the journal holds the value of the moment of the call).
+	ctx.Probe("D-C04-1", func(cs *vkit.Case) string {
+		x := vexec.NewExec(cs, cs.SubDir("data"))
+		defer c04Close(x)
+		x.VCreate(vexec.IndexCfg{Name: "ia", Metric: distance.Euclidean, Prec: distance.Float32, M: 4, EfC: 8})
+		x.ScribbleNested, x.Scribble = true, true
+		x.VAdd("ia", "p1", []float32{1, 2}, map[string]any{"tags": []any{"a", "b"}, "cat": "alpha"})
+		if msg := x.CheckRecord("ia", "p1"); msg != "" {
+			return "list value, single add, the caller's list overwritten after the call: " + msg
+		}
+		x.VAddBatch("ia", []types.BatchObject{{Id: "p2", Vector: []float32{3, 4}, Metadata: map[string]any{"ts": []string{"x", "y"}}}})
+		if msg := x.CheckRecord("ia", "p2"); msg != "" {
+			return "[]string value, batch add, the caller's slice overwritten after the call: " + msg
+		}
+		x.VSetMetadata("ia", "p1", map[string]any{"obj": map[string]any{"k": "v"}})
+		if msg := x.CheckRecord("ia", "p1"); msg != "" {
+			return "object value, VSetMetadata, the caller's map overwritten after the call: " + msg
+		}
+		return ""
+	})
+}
+
+// c04Dims: vector dimensions of the random group (the property quantifies over "vector
+// dimensions"; 1, odd sizes and sizes around SIMD widths included; small ones more often).
+var c04Dims = []int{1, 2, 2, 3, 3, 4, 4, 5, 8, 8, 16, 17, 33}
+
+// c04Widen switches on the opt-in generator branches of vexec.Gen for C04.
+func c04Widen(cs *vkit.Case, g *vexec.Gen) {
+	r := cs.R
+	g.Dim = vkit.Pick(r, c04Dims)
+	if r.Chance(0.3) { // a dimension of its own for every index name
+		g.DimOf = map[string]int{}
+		for _, name := range g.Indexes {
+			g.DimOf[name] = vkit.Pick(r, c04Dims)
+		}
+	}
+	g.NilVecPct = 8
+	g.ReservedMeta = true
+	if r.Chance(0.1) { // ids with the graph-id separator, a blank, non-ASCII ("re-added id", delete cascade, evolve)
+		g.IDs = append(g.IDs, "a::b", "é x")
+	}
+	if r.Chance(0.1) { // "any number of indexes": five names, two of them not plain ASCII words
+		g.Indexes = append(g.Indexes, "Ünï x", "d.e")
+	}
+	g.CfgHook = func(c *vexec.IndexCfg) { // "not provided" M / efConstruction (defaults 16 / 200)
+		if r.Chance(0.06) {
+			c.M = 0
+		}
+		if r.Chance(0.06) {
+			c.EfC = 0
+		}
+	}
+}
+
+// ---- monitor: the reads and rules only C04 makes --------------------------------------------
+
+type c04Mon struct {
+	ctx *vkit.Ctx
+	cs  *vkit.Case
+	x   *vexec.Exec
+	// last int8 read of every live record of an int8 index (keyed by the model record: a
+	// re-added id is a new record)
+	i8 map[*vexec.Rec][]float32
+	// precision of every model index as of the previous operation
+	prec map[*vexec.MIndex]distance.PrecisionType
+	nk   int // op kinds already accounted for
+	// insert path of the last acknowledged batch / import ("" when the last operation was none)
+	lastPath string
+	// ids deleted and added again since the index was last vacuumed
+	readd map[string]map[string]int // index -> id -> 1 deleted, 2 re-added
+}
+
+func newC04Mon(ctx *vkit.Ctx, cs *vkit.Case, x *vexec.Exec) *c04Mon {
+	return &c04Mon{ctx: ctx, cs: cs, x: x, i8: map[*vexec.Rec][]float32{}, prec: map[*vexec.MIndex]distance.PrecisionType{}, readd: map[string]map[string]int{}}
+}
+
+func c04EfC(c vexec.IndexCfg) int { return c.EfC } // the model stores the defaults already
+
+// afterOp runs after EVERY generator step / directed operation: evidence counters derived from
+// the model, the range rule of a compression, and the light read check of the touched ids
+// (property: "each read ... returns exactly what a straightforward reference model predicts" -
+// states that live for fewer than 5 operations are read too).
+func (m *c04Mon) afterOp(when string) {
+	x, M := m.x, m.x.M
+	var kinds []string
+	for _, k := range x.Kinds[m.nk:] {
+		if k != "restart" { // a restart is not followed by afterOp
+			kinds = append(kinds, k)
+		}
+	}
+	m.nk = len(x.Kinds)
+	touched := x.Touched
+	x.Touched = nil
+	m.lastPath = ""
+
+	// --- which insert path did an acknowledged batch / import take (model-derived) ---
+	if len(kinds) > 0 && (kinds[0] == "vaddbatch" || kinds[0] == "vimport") && len(touched) > 0 {
+		acked := !x.Rejected || len(kinds) > 1 // [vimport, vimportcommit]: the import itself was acknowledged
+		if mi := M.Idx[touched[0].Index]; acked && mi != nil {
+			n := len(touched)
+			before := len(mi.Recs) - n
+			thr := c04EfC(mi.Cfg)
+			label := "batch"
+			if kinds[0] == "vimport" {
+				label = "import"
+				thr = max(2*mi.Cfg.M, 40)
+			}
+			if before >= thr {
+				m.lastPath = label + "_parallel"
+				if n > runtime.NumCPU() {
+					m.ctx.Count(label+"_parallel_multi_item_chunks", 1)
+				}
+				if mi.Cfg.Metric == distance.Cosine && mi.Cfg.Prec == distance.Float32 {
+					m.ctx.Count(label+"_parallel_cosine_f32", 1)
+				}
+			} else {
+				m.lastPath = label + "_sequential"
+			}
+			m.ctx.Count(m.lastPath, 1)
+		}
+	}
+	// --- delete -> re-add -> vacuum (evidence only) ---
+	for _, k := range kinds {
+		switch k {
+		case "vdelete":
+			if len(touched) == 1 && !x.Rejected {
+				t := touched[0]
+				if m.readd[t.Index] == nil {
+					m.readd[t.Index] = map[string]int{}
+				}
+				m.readd[t.Index][t.ID] = 1
+			}
+		case "vadd", "vaddbatch", "vimport":
+			for _, t := range touched {
+				if m.readd[t.Index][t.ID] == 1 && M.Idx[t.Index] != nil && M.Idx[t.Index].Recs[t.ID] != nil {
+					m.readd[t.Index][t.ID] = 2
+				}
+			}
+		case "vacuum":
+			if ops := m.cs.Ops(); len(ops) > 0 {
+				if ix, ok := strings.CutPrefix(ops[len(ops)-1], "VTriggerMaintenance("); ok {
+					ix, _, _ = strings.Cut(ix, ",")
+					for _, st := range m.readd[ix] {
+						if st == 2 {
+							m.ctx.Count("readd_then_vacuum", 1)
+							break
+						}
+					}
+					delete(m.readd, ix)
+				}
+			}
+		case "vdrop", "vcompress":
+			m.readd = map[string]map[string]int{}
+		}
+	}
+
+	// --- compression to int8: the trained range must cover the data that was compressed ---
+	// Property: compression "never change[s] what reads return, except for what [it is]
+	// documented to change". Documented (DOCUMENTATION.md 4.2, pkg/core/distance/README.md): int8
+	// is a symmetric scalar quantisation whose range is the 99.9th percentile of the absolute
+	// values it is trained on. A range below that clips live data (a read then returns a
+	// value far from the stored one), which is more than the documented rounding. Only the
+	// lower bound is demanded (a wider range, e.g. the absolute maximum, is no less faithful).
+	prec := map[*vexec.MIndex]distance.PrecisionType{}
+	for _, name := range vexec.SortedKeys(M.Idx) {
+		mi := M.Idx[name]
+		if mi.Cfg.Prec == distance.Int8 && m.prec[mi] == distance.Float32 {
+			var vals []float64
+			for _, r := range mi.Recs { // Exec.VCompress left the normalised vectors here
+				for _, c := range r.Vec {
+					vals = append(vals, math.Abs(float64(c)))
+				}
+			}
+			sort.Float64s(vals)
+			if len(vals) > 0 {
+				q := vals[min(int(float64(len(vals))*0.999), len(vals)-1)]
+				if a := float64(x.AbsMax(name)); a < q*(1-1e-5) {
+					m.cs.Fail("%s: VCompress(%s,int8) trained the range %v, but the 99.9th percentile of the %d compressed components is %v: live vectors are clipped", when, name, a, len(vals), q)
+				}
+				m.ctx.Count("compress_int8_range_checked", 1)
+			}
+		}
+		if mi.Cfg.Prec != distance.Float32 && m.prec[mi] == distance.Float32 {
+			m.ctx.Count("compress_ok", 1)
+		}
+		prec[mi] = mi.Cfg.Prec
+	}
+	m.prec = prec
+
+	// --- light read check of the touched ids: get one, get many, count ---
+	if len(touched) == 0 {
+		return
+	}
+	byIndex := map[string][]string{}
+	var order []string
+	seen := map[vexec.Touch]bool{}
+	for _, t := range touched {
+		if seen[t] {
+			continue
+		}
+		seen[t] = true
+		if _, ok := byIndex[t.Index]; !ok {
+			order = append(order, t.Index)
+		}
+		byIndex[t.Index] = append(byIndex[t.Index], t.ID)
+	}
+	for _, ix := range order {
+		for _, id := range byIndex[ix] {
+			if msg := x.CheckRecord(ix, id); msg != "" {
+				m.cs.Fail("%s: %s", when, msg)
+			}
+		}
+		mi := M.Idx[ix]
+		if mi == nil {
+			continue
+		}
+		if msg := m.many(ix, byIndex[ix]); msg != "" {
+			m.cs.Fail("%s: %s", when, msg)
+		}
+		info, err := x.E.DB.GetSingleVectorIndexInfoAPI(ix)
+		if err != nil {
+			m.cs.Fail("%s: index info of %s: %v", when, ix, err)
+		}
+		if info.VectorCount != len(mi.Recs) {
+			m.cs.Fail("%s: index %s VectorCount=%d want %d", when, ix, info.VectorCount, len(mi.Recs))
+		}
+	}
+	m.ctx.Count("light_checks", 1)
+}
+
+// many: VGetMany of a duplicate-free id list returns exactly the live ones among them, each
+// equal to the model record ("get many"). The returned maps are then overwritten at their top
+// level (they are the caller's) and the records read again.
+func (m *c04Mon) many(ix string, ids []string) string {
+	x := m.x
+	mi := x.M.Idx[ix]
+	got, err := x.E.VGetMany(ix, ids)
+	if err != nil {
+		return fmt.Sprintf("VGetMany(%s,%d ids): %v", ix, len(ids), err)
+	}
+	asked := map[string]bool{}
+	want := 0
+	for _, id := range ids {
+		asked[id] = true
+		if mi.Recs[id] != nil {
+			want++
+		}
+	}
+	seen := map[string]bool{}
+	for _, d := range got {
+		if !asked[d.ID] {
+			return fmt.Sprintf("VGetMany(%s,%v) returned %s, which was not asked for", ix, ids, d.ID)
+		}
+		if seen[d.ID] {
+			return fmt.Sprintf("VGetMany(%s,%v) returned %s twice", ix, ids, d.ID)
+		}
+		seen[d.ID] = true
+		r := mi.Recs[d.ID]
+		if r == nil {
+			return fmt.Sprintf("VGetMany(%s,%v) returned non-live id %s", ix, ids, d.ID)
+		}
+		if ok, why := vexec.VecMatch(mi.Cfg, r.Vec, d.Vector, x.AbsMax(ix)); !ok {
+			return fmt.Sprintf("VGetMany(%s) id %s vector: %s", ix, d.ID, why)
+		}
+		if msg := vexec.MetaMatch(r, d.Metadata); msg != "" {
+			return fmt.Sprintf("VGetMany(%s) id %s: %s", ix, d.ID, msg)
+		}
+	}
+	if len(got) != want {
+		return fmt.Sprintf("VGetMany(%s,%v) returned %d records, %d of the ids are live", ix, ids, len(got), want)
+	}
+	if len(got) > 0 {
+		for _, d := range got {
+			c04ScribbleTop(d.Metadata)
+		}
+		for _, d := range got {
+			if msg := x.CheckRecord(ix, d.ID); msg != "" {
+				return "after overwriting the metadata maps VGetMany returned: " + msg
+			}
+		}
+	}
+	return ""
+}
+
+// c04ScribbleTop overwrites a metadata map a read returned (top level only, see Assume).
+func c04ScribbleTop(md map[string]any) {
+	if md == nil {
+		return
+	}
+	for k := range md {
+		md[k] = "SCRIBBLED"
+	}
+	md["zz_scribbled"] = true
+}
+
+// full = the shared full read-out + the C04-only reads.
+func (m *c04Mon) full(when string) {
+	if msg := m.x.CheckFull(); msg != "" {
+		m.cs.Fail("%s: %s", when, msg)
+	}
+	if msg := m.wide(); msg != "" {
+		m.cs.Fail("%s: %s", when, msg)
+	}
+	if msg := m.int8(); msg != "" {
+		m.cs.Fail("%s: %s", when, msg)
+	}
+	m.ctx.Count("full_checks", 1)
+}
+
+// wide: read variants of the property's reads that CheckFull does not make.
+func (m *c04Mon) wide() string {
+	x, r, M := m.x, m.cs.R, m.x.M
+	// --- "index info": the three list forms agree with the single-index form ---
+	single := map[string]core.IndexInfo{}
+	for name := range M.Idx {
+		info, err := x.E.DB.GetSingleVectorIndexInfoAPI(name)
+		if err != nil {
+			return fmt.Sprintf("index info of %s: %v", name, err)
+		}
+		single[name] = info
+	}
+	lists := []struct {
+		name string
+		get  func() ([]core.IndexInfo, error)
+	}{
+		{"GetVectorIndexInfo", x.E.DB.GetVectorIndexInfo},
+		{"GetVectorIndexInfoAPI", x.E.DB.GetVectorIndexInfoAPI},
+		{"GetVectorIndexInfoUnlocked", func() ([]core.IndexInfo, error) {
+			x.E.DB.RLock()
+			defer x.E.DB.RUnlock()
+			return x.E.DB.GetVectorIndexInfoUnlocked()
+		}},
+	}
+	for _, l := range lists {
+		list, err := l.get()
+		if err != nil {
+			return fmt.Sprintf("%s: %v", l.name, err)
+		}
+		seen := map[string]bool{}
+		for _, e := range list {
+			if seen[e.Name] {
+				return fmt.Sprintf("%s lists index %s twice", l.name, e.Name)
+			}
+			seen[e.Name] = true
+			want, ok := single[e.Name]
+			if !ok {
+				return fmt.Sprintf("%s lists index %s, which does not exist", l.name, e.Name)
+			}
+			if e != want {
+				return fmt.Sprintf("%s entry %+v differs from the single-index info %+v", l.name, e, want)
+			}
+		}
+		if len(list) != len(single) {
+			return fmt.Sprintf("%s lists %d indexes, %d exist", l.name, len(list), len(single))
+		}
+	}
+	ids := vexec.SortedKeys(M.SeenIDs)
+	for _, name := range vexec.SortedKeys(M.SeenIdx) {
+		mi := M.Idx[name]
+		if got := x.E.IndexExists(name); got != (mi != nil) {
+			return fmt.Sprintf("IndexExists(%s)=%v, model says %v", name, got, mi != nil)
+		}
+		if mi == nil {
+			// "nothing for deleted ids": no read of a dropped / never created index returns records
+			if many, err := x.E.VGetMany(name, ids); err == nil && len(many) > 0 {
+				return fmt.Sprintf("VGetMany(%s) returned %d records of a non-existing index", name, len(many))
+			}
+			if page, _, err := x.E.VGetIDsByCursor(name, 0, 1000); err == nil && len(page) > 0 {
+				return fmt.Sprintf("VGetIDsByCursor(%s) listed %v of a non-existing index", name, page)
+			}
+			if lang := x.E.GetIndexLanguage(name); lang != "" {
+				return fmt.Sprintf("GetIndexLanguage(%s)=%q for a non-existing index", name, lang)
+			}
+			if al, err := x.E.VGetAutoLinks(name); err == nil && len(al) > 0 {
+				return fmt.Sprintf("VGetAutoLinks(%s)=%v for a non-existing index", name, al)
+			}
+			continue
+		}
+		if lang := x.E.GetIndexLanguage(name); lang != mi.Cfg.Lang {
+			return fmt.Sprintf("GetIndexLanguage(%s)=%q want %q", name, lang, mi.Cfg.Lang)
+		}
+		al, err := x.E.VGetAutoLinks(name)
+		if err != nil {
+			return fmt.Sprintf("VGetAutoLinks(%s): %v", name, err)
+		}
+		if !(len(al) == 0 && len(mi.Cfg.AutoLinks) == 0) && !reflect.DeepEqual(al, mi.Cfg.AutoLinks) {
+			return fmt.Sprintf("VGetAutoLinks(%s)=%v want %v", name, al, mi.Cfg.AutoLinks)
+		}
+		// --- "get many": a random subset in random order; the empty request ---
+		var sub []string
+		for _, i := range r.Perm(len(ids)) {
+			if r.Chance(0.5) {
+				sub = append(sub, ids[i])
+			}
+		}
+		if msg := m.many(name, sub); msg != "" {
+			return msg
+		}
+		var empty []string
+		if r.Chance(0.5) {
+			empty = []string{}
+		}
+		if many, _ := x.E.VGetMany(name, empty); len(many) != 0 {
+			return fmt.Sprintf("VGetMany(%s, no ids) returned %d records", name, len(many))
+		}
+		// --- "list/cursor": other page sizes; a page never exceeds the limit ---
+		limit := vkit.Pick(r, []int{1, 2, 5, 1000})
+		var walk []string
+		cur := uint32(0)
+		done := false
+		for step := 0; step < 200000; step++ {
+			page, next, err := x.E.VGetIDsByCursor(name, cur, limit)
+			if err != nil {
+				return fmt.Sprintf("VGetIDsByCursor(%s,%d,%d): %v", name, cur, limit, err)
+			}
+			if len(page) > limit {
+				return fmt.Sprintf("VGetIDsByCursor(%s,%d,%d) returned %d ids", name, cur, limit, len(page))
+			}
+			walk = append(walk, page...)
+			if next == 0 {
+				done = true
+				break
+			}
+			if next <= cur {
+				return fmt.Sprintf("VGetIDsByCursor(%s,%d,%d) returned the cursor %d (does not advance)", name, cur, limit, next)
+			}
+			cur = next
+		}
+		if !done {
+			return fmt.Sprintf("cursor walk of %s (page size %d) does not end", name, limit)
+		}
+		ws := map[string]bool{}
+		for _, id := range walk {
+			if ws[id] {
+				return fmt.Sprintf("cursor walk of %s (page size %d) lists %s twice (%v)", name, limit, id, walk)
+			}
+			ws[id] = true
+		}
+		if want := vexec.SortedKeys(mi.Recs); !reflect.DeepEqual(vexec.SortedKeys(ws), want) && !(len(ws) == 0 && len(want) == 0) {
+			return fmt.Sprintf("cursor walk of %s (page size %d) lists %v want %v", name, limit, vexec.SortedKeys(ws), want)
+		}
+		// --- anchor state: the id maps are mutually inverse on live nodes; the id counter is
+		//     not behind any id in use ("one internal id per live external id") ---
+		idx, _ := x.E.DB.GetVectorIndex(name)
+		h := idx.(*hnsw.Index)
+		counter, haveCounter := uint32(0), false
+		if r.Chance(0.15) { // SnapshotData copies the whole graph: not at every check
+			_, _, counter, _, _, _, _, _, _, _ = h.SnapshotData()
+			haveCounter = true
+		}
+		for _, ext := range vexec.SortedKeys(mi.Recs) {
+			in, ok := h.GetInternalID(ext)
+			if !ok {
+				return fmt.Sprintf("index %s: live id %s has no internal id", name, ext)
+			}
+			if back, ok := h.GetExternalID(in); !ok || back != ext {
+				return fmt.Sprintf("index %s: external id %s -> internal %d, but internal %d -> %q (found=%v)", name, ext, in, in, back, ok)
+			}
+			if haveCounter && in > counter {
+				return fmt.Sprintf("index %s: live id %s has internal id %d, above the id counter %d (the next insert would reuse an id)", name, ext, in, counter)
+			}
+		}
+		// --- a metadata map returned by VGet is the caller's ---
+		if live := vexec.SortedKeys(mi.Recs); len(live) > 0 {
+			id := vkit.Pick(r, live)
+			if d, err := x.E.VGet(name, id); err == nil {
+				c04ScribbleTop(d.Metadata)
+				if msg := x.CheckRecord(name, id); msg != "" {
+					return "after overwriting the metadata map VGet returned: " + msg
+				}
+			}
+		}
+	}
+	// --- a value returned by KVGet is the caller's ---
+	if keys := vexec.SortedKeys(M.KV); len(keys) > 0 {
+		k := vkit.Pick(r, keys)
+		b, _ := x.E.KVGet(k)
+		for i := range b {
+			b[i] ^= 0xFF
+		}
+		if again, ok := x.E.KVGet(k); !ok || !bytes.Equal(again, M.KV[k]) {
+			return fmt.Sprintf("KVGet(%q)=%x want %x after the slice returned by the previous KVGet was overwritten", k, again, M.KV[k])
+		}
+	}
+	m.ctx.Count("wide_checks", 1)
+	return ""
+}
+
+// int8: rules for int8 indexes that the tolerance rule of VecMatch cannot see, because it
+// takes the range from the engine.
+func (m *c04Mon) int8() string {
+	x, M := m.x, m.x.M
+	next := map[*vexec.Rec][]float32{}
+	for _, name := range vexec.SortedKeys(M.Idx) {
+		mi := M.Idx[name]
+		if mi.Cfg.Prec != distance.Int8 {
+			continue
+		}
+		a := x.AbsMax(name)
+		// A zero range is the range of an untrained quantizer; every add of a vector with a
+		// non-zero component into an untrained index trains it on (at least) that vector,
+		// and the 99.9th percentile of fewer than 1000 values is their maximum. So as long
+		// as no training can have seen 1000 components, range 0 + a live non-zero vector
+		// means the range was lost (every read of the index returns zeros).
+		small := len(M.SeenIDs)*mi.Dim < 1000
+		for _, id := range vexec.SortedKeys(mi.Recs) {
+			r := mi.Recs[id]
+			if a == 0 && small {
+				for _, c := range r.Vec {
+					if c != 0 {
+						return fmt.Sprintf("int8 index %s has an untrained quantizer (range 0) but holds the non-zero vector %s=%v: the trained range was lost, reads return zeros", name, id, r.Vec)
+					}
+				}
+			}
+			d, err := x.E.VGet(name, id)
+			if err != nil {
+				return fmt.Sprintf("VGet(%s,%s): %v", name, id, err)
+			}
+			got := vexec.CopyVec(d.Vector)
+			// "Background maintenance ... never change what reads return": the int8 form
+			// of a record that no operation has written since is read back bit-identical
+			// (DESIGN 2.5: int8 - expected bit-identical), also across restarts.
+			if prev, ok := m.i8[r]; ok {
+				same := len(prev) == len(got)
+				for i := 0; same && i < len(got); i++ {
+					same = math.Float32bits(prev[i]) == math.Float32bits(got[i])
+				}
+				if !same {
+					return fmt.Sprintf("int8 read of (%s,%s) changed from %v to %v although no operation wrote the record (range now %v)", name, id, prev, got, a)
+				}
+				m.ctx.Count("int8_stable_rereads", 1)
+			}
+			next[r] = got
+		}
+	}
+	m.i8 = next
+	return ""
+}
+
+// ---- directed templates ---------------------------------------------------------------------
+
+type c04Run struct {
+	ctx *vkit.Ctx
+	cs  *vkit.Case
+	x   *vexec.Exec
+	g   *vexec.Gen
+	mon *c04Mon
+	n   int // fresh-id counter
+}
+
+// ok: the operation just executed was meant to be valid (a template that is rejected where
+// the model allows either outcome would silently test nothing).
+func (t *c04Run) ok(what string) {
+	if t.x.Rejected {
+		t.cs.Fail("directed template: %s was rejected", what)
+	}
+	t.mon.afterOp("after " + what)
+}
+
+func (t *c04Run) full(when string) { t.mon.full(when) }
+
+func (t *c04Run) fresh() string { t.n++; return fmt.Sprintf("f%d", t.n-1) }
+
+func (t *c04Run) path(want string) {
+	if t.mon.lastPath != want {
+		t.cs.Fail("directed template: the model says the call took the path %q, the template needs %q", t.mon.lastPath, want)
+	}
+}
+
+// items: n batch items with fresh ids (plus the given ones), random vectors and metadata.
+func (t *c04Run) items(ix string, n int, extra ...string) []types.BatchObject {
+	var out []types.BatchObject
+	for i := 0; i < n; i++ {
+		out = append(out, types.BatchObject{Id: t.fresh(), Vector: t.g.VecFor(ix), Metadata: t.g.Meta()})
+	}
+	for _, id := range extra {
+		out = append(out, types.BatchObject{Id: id, Vector: t.g.VecFor(ix), Metadata: t.g.Meta()})
+	}
+	// the extra ids do not sit at the end
+	for i := len(out) - 1; i > 0; i-- {
+		j := t.cs.R.Intn(i + 1)
+		out[i], out[j] = out[j], out[i]
+	}
+	return out
+}
+
+// admin: maintenance the property names, in random order, each followed by a full check;
+// then a restart ("restore").
+func (t *c04Run) admin(ix string) {
+	x := t.x
+	steps := []string{"snapshot", "rewrite", "vacuum", "refine", "compress"}
+	for _, i := range t.cs.R.Perm(len(steps)) {
+		switch steps[i] {
+		case "snapshot":
+			x.SaveSnapshot()
+		case "rewrite":
+			x.RewriteAOF()
+		case "vacuum", "refine":
+			x.Maintenance(ix, steps[i])
+		case "compress":
+			mi := x.M.Idx[ix]
+			if mi == nil || mi.Cfg.Prec != distance.Float32 || len(mi.Recs) == 0 || !t.cs.R.Chance(0.6) {
+				continue
+			}
+			target := distance.PrecisionType(distance.Float16)
+			if mi.Cfg.Metric == distance.Cosine {
+				target = distance.Int8
+			}
+			x.VCompress(ix, target)
+		}
+		t.mon.afterOp("after " + steps[i])
+		t.full("after " + steps[i])
+	}
+	x.Restart()
+	t.full("after restart")
+}
+
+var c04Templates = []struct {
+	name string
+	run  func(t *c04Run)
+}{
+	{"nilvec", c04TNilVec},
+	{"reserved", c04TReserved},
+	{"parallel", c04TParallel},
+	{"fastimport", c04TFastImport},
+	{"int8range", c04TInt8},
+	{"aliasing", c04TAliasing},
+	{"bigdim", c04TBigDim},
+}
+
+// nilvec: vector-less entities (the engine stores a zero vector of the index's dimension) on a
+// NON-empty index through every insert entry point, and as the first item of a batch into an
+// empty index (the dimension then comes from a later item).
+func c04TNilVec(t *c04Run) {
+	x, g, r := t.x, t.g, t.cs.R
+	g.Dim = vkit.Pick(r, c04Dims)
+	x.VCreate(g.Cfg("ia"))
+	t.ok("VCreate")
+	if r.Chance(0.5) {
+		x.VAddBatch("ia", []types.BatchObject{{Id: "f0", Metadata: g.Meta()}, {Id: "f1", Vector: g.Vec(), Metadata: g.Meta()}, {Id: "f2"}})
+		t.ok("VAddBatch with vector-less first item into an empty index")
+	} else {
+		x.VAdd("ia", "f1", g.Vec(), g.Meta())
+		t.ok("VAdd")
+		x.VAdd("ia", "f0", nil, g.Meta())
+		t.ok("vector-less VAdd")
+		x.VAdd("ia", "f2", []float32{}, nil)
+		t.ok("VAdd with an empty vector and no metadata")
+	}
+	t.n = 3
+	t.full("after vector-less adds")
+	if r.Chance(0.5) {
+		x.VImport("ia", []types.BatchObject{{Id: t.fresh()}, {Id: t.fresh(), Vector: g.Vec(), Metadata: g.Meta()}, {Id: t.fresh(), Metadata: g.Meta()}})
+		t.ok("VImport with vector-less items")
+		x.VImportCommit("ia")
+		t.ok("VImportCommit")
+	} else {
+		x.VAddBatch("ia", []types.BatchObject{{Id: t.fresh(), Vector: g.Vec()}, {Id: t.fresh(), Metadata: g.Meta()}})
+		t.ok("VAddBatch with a vector-less item")
+	}
+	x.VEvolve("ia", "f1", nil, g.Meta(), "no new vector")
+	t.ok("vector-less VEvolve")
+	x.VDelete("ia", "f0")
+	t.ok("VDelete")
+	x.VAdd("ia", "f0", nil, g.Meta()) // re-add, again without a vector
+	t.ok("vector-less re-add")
+	x.Maintenance("ia", "vacuum")
+	t.mon.afterOp("after vacuum")
+	t.full("after vector-less re-add + vacuum")
+	for i := 0; i < 4; i++ {
+		g.Step(x)
+		t.mon.afterOp("after random step")
+	}
+	t.admin("ia")
+}
+
+// reserved: the keys the memory machinery owns, supplied by the user on a memory-enabled index
+// with layers. Model (DESIGN 4, "injection is part of the model"): _created_at is injected only
+// when missing; memory_layer defaults to "episodic" when missing or empty; a layer that is
+// pinned by default sets _pinned only when the user did not; reinforce increments a numeric
+// _access_count.
+func c04TReserved(t *c04Run) {
+	x, g, r := t.x, t.g, t.cs.R
+	cfg := g.Cfg("ia")
+	cfg.Mem = &hnsw.MemoryConfig{Enabled: true, DecayModel: hnsw.DecayExponential, DecayHalfLife: hnsw.Duration(time.Hour),
+		Layers: map[string]hnsw.LayerConfig{
+			"episodic":   {DecayHalfLife: hnsw.Duration(time.Hour)},
+			"procedural": {DecayHalfLife: 0, PinnedByDefault: true},
+		}}
+	x.VCreate(cfg)
+	t.ok("VCreate")
+	metas := []map[string]any{
+		{"_created_at": float64(12345)},
+		{"memory_layer": "procedural"},
+		{"memory_layer": "procedural", "_pinned": false},
+		{"memory_layer": "", "cat": "alpha"},
+		{"memory_layer": "semantic", "_pinned": true},
+		{"_access_count": float64(3), "_last_accessed": float64(5)},
+		{"_created_at": int64(777), "_access_count": 2}, // Go-typed numbers
+		nil,
+		{},
+	}
+	var ids []string
+	for _, i := range r.Perm(len(metas)) {
+		id := t.fresh()
+		ids = append(ids, id)
+		x.VAdd("ia", id, g.Vec(), metas[i])
+		t.ok("VAdd with reserved keys")
+	}
+	t.full("after adds with reserved keys")
+	x.VReinforce("ia", ids)
+	t.ok("VReinforce")
+	x.VReinforce("ia", []string{})
+	t.ok("VReinforce of no ids")
+	// batch / import items: the same rules as for a single add
+	batch := []types.BatchObject{
+		{Id: t.fresh(), Vector: g.Vec(), Metadata: map[string]any{"memory_layer": "procedural", "_pinned": true, "_created_at": float64(1)}},
+		{Id: t.fresh(), Vector: g.Vec(), Metadata: map[string]any{"memory_layer": "episodic", "_pinned": false}},
+		{Id: t.fresh(), Vector: g.Vec(), Metadata: map[string]any{"memory_layer": "procedural"}},
+		{Id: t.fresh(), Vector: g.Vec(), Metadata: map[string]any{"memory_layer": "procedural", "_pinned": false}},
+		{Id: t.fresh(), Vector: g.Vec(), Metadata: map[string]any{"memory_layer": "", "_created_at": int64(42)}},
+		{Id: t.fresh(), Vector: g.Vec()},
+	}
+	if r.Chance(0.5) {
+		x.VAddBatch("ia", batch)
+		t.ok("VAddBatch with reserved keys")
+	} else {
+		x.VImport("ia", batch)
+		t.ok("VImport with reserved keys")
+		x.VImportCommit("ia")
+		t.ok("VImportCommit")
+	}
+	x.VEvolve("ia", ids[0], g.Vec(), map[string]any{"memory_layer": "episodic"}, "layer change")
+	t.ok("VEvolve with memory_layer")
+	x.VEvolve("ia", ids[1], nil, map[string]any{"_created_at": float64(99), "_pinned": false}, "historical import")
+	t.ok("VEvolve with _created_at")
+	x.VSetMetadata("ia", ids[2], map[string]any{"_pinned": true, "_created_at": float64(5), "memory_layer": "procedural"})
+	t.ok("VSetMetadata with reserved keys")
+	x.VReinforce("ia", ids[:3])
+	t.ok("VReinforce")
+	t.full("after reserved-key updates")
+	for i := 0; i < 4; i++ {
+		g.Step(x)
+		t.mon.afterOp("after random step")
+	}
+	t.admin("ia")
+}
+
+// parallel: single adds up to the batch-path threshold, then batches large enough for the
+// parallel path with SEVERAL items per pre-processing worker (n > NumCPU, n not a multiple of
+// the worker count: clamped last chunk), a deleted id re-added inside the batch, vacuum after.
+// On an int8 index the quantizer is sometimes still untrained when the parallel path runs
+// (only zero vectors so far): the path then trains on the batch.
+func c04TParallel(t *c04Run) {
+	x, g, r := t.x, t.g, t.cs.R
+	g.Dim = vkit.Pick(r, []int{2, 3, 4, 8, 16})
+	cfg := g.Cfg("ia")
+	cfg.EfC = vkit.Pick(r, []int{4, 8})
+	x.VCreate(cfg)
+	t.ok("VCreate")
+	zeroSeed := cfg.Prec == distance.Int8 && r.Chance(0.5)
+	n0 := cfg.EfC + 1 + r.Intn(4)
+	var seedIDs []string
+	for i := 0; i < n0; i++ {
+		id := t.fresh()
+		seedIDs = append(seedIDs, id)
+		v := g.Vec()
+		if zeroSeed {
+			v = make([]float32, g.Dim)
+		}
+		x.VAdd("ia", id, v, g.Meta())
+		t.ok("VAdd")
+	}
+	x.VDelete("ia", seedIDs[1])
+	t.ok("VDelete")
+	if r.Chance(0.4) { // the index as a snapshot / the log restores it (untrained quantizer included)
+		if r.Chance(0.5) {
+			x.SaveSnapshot()
+			t.mon.afterOp("after snapshot")
+		}
+		x.Restart()
+		t.full("after restart, before the batch")
+	}
+	n := vkit.Pick(r, []int{17, 23, 32, 33, 40, 48})
+	x.VAddBatch("ia", t.items("ia", n-1, seedIDs[1]))
+	t.ok("VAddBatch (parallel path)")
+	t.path("batch_parallel")
+	if n > runtime.NumCPU() {
+		t.ctx.Count("directed.parallel_multi_item_chunks", 1)
+	}
+	x.Maintenance("ia", "vacuum")
+	t.mon.afterOp("after vacuum")
+	t.ctx.Count("directed.readd_in_parallel_batch_then_vacuum", 1)
+	t.full("after parallel batch + vacuum")
+	x.VAddBatch("ia", t.items("ia", r.Range(1, 6)))
+	t.ok("small VAddBatch (parallel path)")
+	t.path("batch_parallel")
+	x.VAdd("ia", t.fresh(), g.Vec(), g.Meta()) // single insert after a batch: id allocation
+	t.ok("VAdd after batch")
+	t.full("after second batch")
+	t.admin("ia")
+	x.VAddBatch("ia", t.items("ia", vkit.Pick(r, []int{5, 17, 31})))
+	t.ok("VAddBatch after maintenance + restart")
+	t.full("after batch on the restored index")
+}
+
+// fastimport: VImport below and above the fast-path threshold (live ids >= max(2*M, 40)),
+// with a re-added id and a vector-less item, committed or made durable by a snapshot / rewrite.
+func c04TFastImport(t *c04Run) {
+	x, g, r := t.x, t.g, t.cs.R
+	g.Dim = vkit.Pick(r, []int{2, 3, 4, 8})
+	cfg := g.Cfg("ia")
+	cfg.M = vkit.Pick(r, []int{2, 4, 16})
+	cfg.EfC = vkit.Pick(r, []int{4, 8, 200})
+	x.VCreate(cfg)
+	t.ok("VCreate")
+	thr := max(2*cfg.M, 40)
+	// seed to just below the threshold, import (sequential path), then cross it
+	for left := thr - 2; left > 0; {
+		k := min(left, r.Range(5, 25))
+		x.VAddBatch("ia", t.items("ia", k))
+		t.ok("VAddBatch (seed)")
+		left -= k
+	}
+	x.VImport("ia", t.items("ia", 1))
+	t.ok("VImport below the threshold")
+	t.path("import_sequential")
+	x.VImportCommit("ia")
+	t.ok("VImportCommit")
+	x.VAddBatch("ia", t.items("ia", 3+r.Intn(4)))
+	t.ok("VAddBatch")
+	victim := fmt.Sprintf("f%d", r.Intn(10))
+	x.VDelete("ia", victim)
+	t.ok("VDelete")
+	items := t.items("ia", vkit.Pick(r, []int{1, 15, 17, 35})-1, victim)
+	items = append(items, types.BatchObject{Id: t.fresh(), Metadata: g.Meta()}) // vector-less
+	x.VImport("ia", items)
+	t.ok("VImport above the threshold")
+	t.path("import_parallel")
+	x.VImportCommit("ia")
+	t.ok("VImportCommit")
+	t.full("after fast import")
+	x.Restart()
+	t.full("after fast import + restart")
+	x.VImport("ia", t.items("ia", vkit.Pick(r, []int{2, 16, 20})))
+	t.ok("second VImport above the threshold")
+	t.path("import_parallel")
+	if r.Chance(0.5) {
+		x.SaveSnapshot()
+	} else {
+		x.RewriteAOF()
+	}
+	t.mon.afterOp("after snapshot / rewrite")
+	x.VAdd("ia", t.fresh(), g.Vec(), g.Meta())
+	t.ok("VAdd after import")
+	t.full("after second fast import")
+	t.admin("ia")
+}
+
+// int8range: the trained range of an int8 index - after a compression; on an index created as
+// int8 whose first vector is the zero vector; with the training vector deleted; across
+// restart, rewrite, snapshot and vacuum (see c04Mon.int8 and the rule in afterOp).
+func c04TInt8(t *c04Run) {
+	x, g, r := t.x, t.g, t.cs.R
+	g.Dim = vkit.Pick(r, []int{2, 3, 4, 8, 16})
+	g.Combos = [][2]string{{string(distance.Cosine), string(distance.Float32)}}
+	direct := r.Chance(0.5)
+	if direct {
+		g.Combos = [][2]string{{string(distance.Cosine), string(distance.Int8)}}
+	}
+	cfg := g.Cfg("ia")
+	x.VCreate(cfg)
+	t.ok("VCreate")
+	first := t.fresh()
+	if direct && r.Chance(0.5) {
+		x.VAdd("ia", first, make([]float32, g.Dim), g.Meta()) // the zero vector trains nothing
+		t.ok("VAdd zero vector")
+		first = t.fresh()
+	}
+	train := make([]float32, g.Dim) // small range: later vectors are clipped to it
+	for i := range train {
+		train[i] = r.F32() * 0.25
+	}
+	train[r.Intn(g.Dim)] = 0.25
+	x.VAdd("ia", first, train, g.Meta())
+	t.ok("VAdd (first non-zero vector)")
+	for i, n := 0, r.Range(4, 20); i < n; i++ {
+		x.VAdd("ia", t.fresh(), g.Vec(), g.Meta())
+		t.ok("VAdd")
+	}
+	x.VAddBatch("ia", t.items("ia", r.Range(1, 6)))
+	t.ok("VAddBatch")
+	if !direct {
+		x.VCompress("ia", distance.Int8)
+		t.ok("VCompress int8") // afterOp checks the trained range
+		t.ctx.Count("directed.compress_int8", 1)
+	}
+	t.full("int8 index populated")
+	x.VDelete("ia", first) // the vector the range was trained on (direct case)
+	t.ok("VDelete of the training vector")
+	x.Maintenance("ia", "vacuum")
+	t.mon.afterOp("after vacuum")
+	t.full("after deleting the training vector + vacuum")
+	x.Restart()
+	t.full("after restart")
+	x.VAdd("ia", t.fresh(), g.Vec(), g.Meta())
+	t.ok("VAdd after restart")
+	x.RewriteAOF()
+	t.mon.afterOp("after rewrite")
+	x.Restart()
+	t.full("after rewrite + restart")
+	x.SaveSnapshot()
+	t.mon.afterOp("after snapshot")
+	x.VAdd("ia", t.fresh(), g.Vec(), g.Meta())
+	t.ok("VAdd after snapshot")
+	x.Restart()
+	t.full("after snapshot + add + restart")
+}
+
+// aliasing: every slice / map handed to the engine is overwritten right after the call
+// (Exec.Scribble), every map / slice a read returned is overwritten (c04Mon), then everything
+// is read again - live and after a restart. Nested metadata values (lists, objects, typed Go
+// slices) and the parallel batch path on cosine/float32 (which normalises the caller's vector
+// in place) included.
+func c04TAliasing(t *c04Run) {
+	x, g, r := t.x, t.g, t.cs.R
+	c04Scribble(t.ctx, x, true)
+	g.Dim = vkit.Pick(r, []int{2, 3, 4, 8})
+	if r.Chance(0.5) {
+		g.Combos = [][2]string{{string(distance.Cosine), string(distance.Float32)}}
+	}
+	cfg := g.Cfg("ia")
+	cfg.EfC = 4
+	x.VCreate(cfg)
+	t.ok("VCreate")
+	nested := func() map[string]any {
+		return map[string]any{
+			"tags": []any{vkit.Pick(r, g.Words), vkit.Pick(r, g.Words)},
+			"obj":  map[string]any{"a": float64(r.Intn(5)), "b": []any{vkit.Pick(r, g.Words)}, "c": map[string]any{"d": true}},
+			"ts":   []string{vkit.Pick(r, g.Words), "x"},
+			"ns":   []int{r.Intn(5), 7},
+			"sm":   map[string]string{"k": vkit.Pick(r, g.Words)},
+			"cat":  vkit.Pick(r, g.Words),
+		}
+	}
+	x.KVSet("k0", r.Bytes(8))
+	t.ok("KVSet")
+	for i := 0; i < 6; i++ {
+		x.VAdd("ia", t.fresh(), g.Vec(), nested())
+		t.ok("VAdd with nested metadata")
+	}
+	items := t.items("ia", 20)
+	for i := range items {
+		if i%2 == 0 {
+			items[i].Metadata = nested()
+		}
+	}
+	x.VAddBatch("ia", items)
+	t.ok("VAddBatch (parallel path)")
+	t.path("batch_parallel")
+	x.VImport("ia", []types.BatchObject{{Id: t.fresh(), Vector: g.Vec(), Metadata: nested()}, {Id: t.fresh(), Vector: g.Vec()}})
+	t.ok("VImport")
+	x.VImportCommit("ia")
+	t.ok("VImportCommit")
+	x.VSetMetadata("ia", "f0", nested())
+	t.ok("VSetMetadata with nested metadata")
+	x.VEvolve("ia", "f1", g.Vec(), nested(), "alias")
+	t.ok("VEvolve with nested metadata")
+	x.VLink("ia", "f2", "f3", "r", "inv_r", 1, map[string]any{"k": "v", "since": "2020"})
+	t.ok("VLink with properties")
+	x.VReinforce("ia", []string{"f0", "f2"})
+	t.ok("VReinforce")
+	t.full("after calls whose arguments were overwritten")
+	for i := 0; i < 6; i++ {
+		g.Step(x)
+		t.mon.afterOp("after random step")
+	}
+	t.full("after random steps")
+	x.Restart() // what the journal holds is what the calls were given
+	t.full("after restart")
+	t.admin("ia")
+}
+
+// bigdim: realistic embedding sizes, a dimension of its own per index, every precision.
+func c04TBigDim(t *c04Run) {
+	x, g, r := t.x, t.g, t.cs.R
+	g.DimOf = map[string]int{"ia": vkit.Pick(r, []int{64, 128, 1536}), "ib": vkit.Pick(r, []int{1, 33, 384, 768})}
+	g.NilVecPct = 10
+	for _, ix := range []string{"ia", "ib"} {
+		cfg := g.Cfg(ix)
+		cfg.EfC = vkit.Pick(r, []int{4, 200})
+		x.VCreate(cfg)
+		t.ok("VCreate")
+	}
+	for round := 0; round < 2; round++ {
+		for _, ix := range []string{"ia", "ib"} {
+			for i, n := 0, r.Range(2, 5); i < n; i++ {
+				x.VAdd(ix, t.fresh(), g.VecFor(ix), g.Meta())
+				t.ok("VAdd")
+			}
+			x.VAddBatch(ix, t.items(ix, r.Range(1, 5)))
+			t.ok("VAddBatch")
+			if id, ok := c04PickLive(t, ix); ok {
+				x.VDelete(ix, id)
+				t.ok("VDelete")
+				if r.Chance(0.5) {
+					x.VAdd(ix, id, g.VecFor(ix), g.Meta())
+					t.ok("re-add")
+				}
+			}
+			if id, ok := c04PickLive(t, ix); ok {
+				x.VEvolve(ix, id, g.AddVec(x.M, ix), g.Meta(), "big")
+				t.ok("VEvolve")
+			}
+		}
+		t.full("after a round on two indexes of different dimension")
+		t.admin(vkit.Pick(r, []string{"ia", "ib"}))
+	}
+}
+
+func c04PickLive(t *c04Run, ix string) (string, bool) {
+	mi := t.x.M.Idx[ix]
+	if mi == nil || len(mi.Recs) == 0 {
+		return "", false
+	}
+	return vkit.Pick(t.cs.R, vexec.SortedKeys(mi.Recs)), true
+}
+
+// ---- bulk group -----------------------------------------------------------------------------
+
+// c04Bulk: one index is filled with 38-56 records, then batches of 1-40 items, imports of 1-40
+// items, deletes of several ids, re-adds inside batches, maintenance, random steps and restarts
+// follow; full check after every bulk insert / delete round and every third other operation.
+func c04Bulk(ctx *vkit.Ctx, cs *vkit.Case, x *vexec.Exec) {
+	r := cs.R
+	g := vexec.NewGen(r)
+	c04Guards(ctx, g)
+	g.NilVecPct = 6
+	g.ReservedMeta = true
+	g.NoDrop = true
+	g.Dim = vkit.Pick(r, []int{1, 2, 3, 4, 8, 16})
+	g.CfgHook = func(c *vexec.IndexCfg) { c.EfC = vkit.Pick(r, []int{4, 8, 16, 40, 200}) }
+	c04Scribble(ctx, x, r.Chance(0.5))
+	mon := newC04Mon(ctx, cs, x)
+	const ix = "ia"
+	x.VCreate(g.Cfg(ix))
+	mon.afterOp("after VCreate")
+	next := 0
+	var dead []string
+	fresh := func(n int) []types.BatchObject {
+		var items []types.BatchObject
+		if len(dead) > 0 && r.Chance(0.4) { // a deleted id comes back inside the batch
+			k := r.Intn(len(dead))
+			items = append(items, types.BatchObject{Id: dead[k], Vector: g.AddVec(x.M, ix), Metadata: g.Meta()})
+			dead = append(dead[:k], dead[k+1:]...)
+		}
+		for len(items) < n {
+			items = append(items, types.BatchObject{Id: fmt.Sprintf("f%d", next), Vector: g.AddVec(x.M, ix), Metadata: g.Meta()})
+			next++
+		}
+		for i := len(items) - 1; i > 0; i-- {
+			j := r.Intn(i + 1)
+			items[i], items[j] = items[j], items[i]
+		}
+		return items
+	}
+	durable := func() { // an import is not journaled: commit it, or snapshot / rewrite
+		switch r.Intn(4) {
+		case 0:
+			x.SaveSnapshot()
+		case 1:
+			x.RewriteAOF()
+		default:
+			x.VImportCommit(ix)
+		}
+		mon.afterOp("after making the import durable")
+	}
+	for left := r.Range(38, 56); left > 0; {
+		k := min(left, r.Range(10, 56))
+		if r.Chance(0.3) {
+			x.VImport(ix, fresh(k))
+			mon.afterOp("after seeding VImport")
+			durable()
+		} else {
+			x.VAddBatch(ix, fresh(k))
+			mon.afterOp("after seeding VAddBatch")
+		}
+		left -= k
+	}
+	mon.full("after seeding")
+	nops := r.Range(8, ctx.N(14, 24))
+	for i := 0; i < nops; i++ {
+		when := fmt.Sprintf("after bulk op %d", i)
+		p := r.Intn(100)
+		switch {
+		case p < 25:
+			x.VAddBatch(ix, fresh(vkit.Pick(r, []int{1, 2, 6, 16, 17, 24, 33, 40})))
+			mon.afterOp(when)
+		case p < 43:
+			x.VImport(ix, fresh(vkit.Pick(r, []int{1, 5, 17, 33, 40})))
+			mon.afterOp(when)
+			durable()
+		case p < 58:
+			for k := r.Range(1, 8); k > 0; k-- {
+				mi := x.M.Idx[ix]
+				if mi == nil || len(mi.Recs) == 0 {
+					break
+				}
+				id := vkit.Pick(r, vexec.SortedKeys(mi.Recs))
+				x.VDelete(ix, id)
+				mon.afterOp(when)
+				if strings.HasPrefix(id, "f") {
+					dead = append(dead, id)
+				}
+			}
+		case p < 68:
+			g.Admin(x)
+			mon.afterOp(when)
+		case p < 74:
+			x.Maintenance(ix, "vacuum")
+			mon.afterOp(when)
+		case p < 95:
+			g.Step(x)
+			mon.afterOp(when)
+		default:
+			x.Restart()
+			p = 0 // full check after a restart
+		}
+		ctx.Count("ops", 1)
+		if p < 58 || i%3 == 2 || i == nops-1 { // after every bulk insert / delete round, else every 3rd op
+			mon.full(when)
+		}
+	}
+}
